@@ -85,6 +85,8 @@ def run_level_check(prop, tier, panel_names, level="model_checking", design_cfgs
     other_props = {}
     ext = {}
     tlc_states = 0
+    refine_stats = {}
+    refine_skips = {}
     all_panels = []
     for name in panel_names:
         scs = panels.PANELS[name](tier)
@@ -100,6 +102,10 @@ def run_level_check(prop, tier, panel_names, level="model_checking", design_cfgs
         res = run_panel(scs, name=f"{name}-{tier}")
         results.append((name, scs, res))
         total_runs += len(scs)
+        for o in res.get("refine", []):
+            refine_stats[o["status"]] = refine_stats.get(o["status"], 0) + 1
+            if o["status"] == "skipped":
+                refine_skips[o["reason"]] = refine_skips.get(o["reason"], 0) + 1
         total_events += res["stats"]["events"]
         tlc_states += res["stats"]["tlc_distinct"]
         for i, sc in enumerate(scs):
@@ -146,6 +152,9 @@ def run_level_check(prop, tier, panel_names, level="model_checking", design_cfgs
         "samples": samples,
         "clauses_of_other_properties_seen": other_props,
         "extended_conformance_deviations": ext,
+        "design_refinement": {"runs_by_status": refine_stats, "skipped_because": refine_skips,
+                              "rule": "each recorded run is checked to be a behaviour of specs/BadsRun.tla itself "
+                                      "(acceptor BadsRunRefine.tla, one TLC run per recorded run with the run's options as constants)"},
         "exhaustive": False,
     })
     v.assumptions += list(notes) + [
